@@ -177,7 +177,7 @@ func (l *c10Log) problem(format string, args ...any) {
 }
 
 // one invocation scope (property body or Custom function) with its own *T
-func c10Scope(l *c10Log, t *rapid.T, kind string, nReg int, panicAt int, nested bool) (finish func()) {
+func c10Scope(l *c10Log, t *rapid.T, kind string, nReg int, panicAt int, nested bool, skipLast bool) (finish func()) {
 	l.mu.Lock()
 	if kind == "prop" {
 		if l.active != 0 {
@@ -243,6 +243,9 @@ func c10Scope(l *c10Log, t *rapid.T, kind string, nReg int, panicAt int, nested 
 			l.active--
 			l.mu.Unlock()
 		}
+		if skipLast {
+			t.SkipNow() // the cleanup that runs last panics with invalid data: the test case is skipped, the *T is reused
+		}
 	})
 	for i := 0; i < nReg; i++ {
 		reg(i)
@@ -263,7 +266,7 @@ func init() {
 			l := &c10Log{endings: map[string]int{}}
 			failAbove := int(r.pick(50, 90, 101)) // 101: never fails
 			custom := rapid.Custom(func(t *rapid.T) int {
-				fin := c10Scope(l, t, "custom", 2, -1, false)
+				fin := c10Scope(l, t, "custom", 2, -1, false, false)
 				v := rapid.IntRange(0, 9).Draw(t, "c")
 				if v%4 == 0 {
 					t.Skip("retry") // Custom retries: cleanups of the rejected attempt still run
@@ -277,7 +280,11 @@ func init() {
 				if panicAt >= nReg {
 					panicAt = -1
 				}
-				fin := c10Scope(l, t, "prop", nReg, panicAt, nReg > 0 && panicAt != 0)
+				skipLast := rapid.IntRange(0, 5).Draw(t, "skipLast") == 0
+				fin := c10Scope(l, t, "prop", nReg, panicAt, nReg > 0 && panicAt != 0, skipLast)
+				if skipLast {
+					l.endings["cleanup-skips"]++
+				}
 				_ = custom.Draw(t, "cv")
 				end := rapid.IntRange(0, 100).Draw(t, "end")
 				fin()
@@ -321,10 +328,11 @@ func init() {
 func init() {
 	monitors["C11"] = func(r *rng, scale int, m *monOut, tmp string) {
 		// behaviour chosen by the drawn value: 0 pass, 1 errorf, 2 skip, 3 errorf+skip, 4 cleanup-time errorf,
-		// 5 cleanup-time errorf + skip, 6 pass … most cases pass or skip, rarely one signals
+		// 5 cleanup-time errorf + skip, 6 pass, 7 a cleanup that skips, 8/9 a cleanup that skips while an older one
+		// (which signals / does not signal) is still pending … most cases pass or skip, rarely one signals
 		for i := 0; i < 40*scale; i++ {
 			hi := int(r.pick(6, 12, 30, 60))
-			src := fmt.Sprintf("((ctxlive 5) (draw b (i 0 %d)) (draw pad (slice (bool) 0 3)) (if (eq b 0) (cleanup (ctx))) (if (eq b 6) (cleanup (cleanup (ctx)))) (if (eq b 4) (cleanup (error 4))) (if (eq b 5) (cleanup (error 5))) (if (eq b 1) (error 1)) (if (eq b 3) (error 3)) (if (eq b 2) (skip)) (if (eq b 3) (skip)) (if (eq b 5) (skip)))", hi)
+			src := fmt.Sprintf("((ctxlive 5) (draw b (i 0 %d)) (draw pad (slice (bool) 0 3)) (if (eq b 0) (cleanup (ctx))) (if (eq b 6) (cleanup (cleanup (ctx)))) (if (eq b 4) (cleanup (error 4))) (if (eq b 5) (cleanup (error 5))) (if (eq b 7) (cleanup (skip))) (if (eq b 8) (cleanup (error 2)) (cleanup (skip))) (if (eq b 9) (cleanup (emit 9)) (cleanup (skip))) (if (eq b 1) (error 1)) (if (eq b 3) (error 3)) (if (eq b 2) (skip)) (if (eq b 3) (skip)) (if (eq b 5) (skip)))", hi)
 			prog := mustSX(src)
 			fl := baseFlags()
 			fl.Checks = int(r.pick(10, 100))
@@ -1128,6 +1136,9 @@ func raceScenario(which string) {
 			rapid.Map(rapid.StringMatching(`[a-z]{1,3}\d?`), func(s string) any { return s }),
 			rapid.SliceOfDistinct(rapid.String(), rapid.ID[string]).AsAny(),
 			rapid.Make[rec3]().AsAny(),
+			rapid.SliceOfBytesMatching(`[a-z]{2,12}`).AsAny(),
+			rapid.Map(rapid.StringMatching(`(ab|cd)+x?`), func(s string) any { return s }),
+			rapid.SliceOfN(rapid.Byte(), 1, 6).AsAny(),
 		}
 		var wg sync.WaitGroup
 		results := make([]string, 8)
@@ -1142,11 +1153,23 @@ func raceScenario(which string) {
 				_ = fl
 				runTB(func() {
 					rapid.VerifDoCheck(tb, farDeadline(), 60, 4242, "", false, func(t *rapid.T) {
+						// a value, once drawn, belongs to the test case: it is rendered when drawn and again
+						// after all later draws (of this check and, concurrently, of the others)
+						held := make([]any, len(gens))
+						first := make([]string, len(gens))
 						for j, g := range gens {
 							if (i+n)%2 == 0 {
 								_ = g.String()
 							}
-							fmt.Fprintf(&b, "%d:%v;", j, g.Draw(t, "v"))
+							held[j] = g.Draw(t, "v")
+							first[j] = fmt.Sprintf("%d:%v;", j, held[j])
+							b.WriteString(first[j])
+						}
+						for j := range gens {
+							if again := fmt.Sprintf("%d:%v;", j, held[j]); again != first[j] {
+								fmt.Printf("DIFF: a drawn value changed after later draws: %s became %s\n", first[j], again)
+								os.Exit(67)
+							}
 						}
 						n++
 					})
